@@ -36,7 +36,7 @@ PROFILES = {
     "C02": {"retype": 4, "rm_parent": 6, "rm_ws": 8, "set_flag": 6, "move": 7, "copy": 8, "close_reopen": 6, "move_data": 6, "copy_extent": 5, "pg_add": 6},
     "C05": {"add_comment": 5, "add_file": 3, "rm_ws": 12, "rm_parent": 9, "pg_add": 13, "pg_rm": 4, "pg_new": 6, "lookup": 6, "copy": 4, "set_flag": 5, "rm_all": 1, "add_data": 14},
     "C06": {"mk_dup": 8, "copy": 10, "rm_ws": 6, "rm_parent": 5, "lookup": 4},
-    "C09": {"observe": 4, "list": 4, "type_edit": 6, "retype": 8, "copy": 10, "pg_add": 7, "add_data": 14, "geo_image": 4, "add_file": 3, "mk_dup": 5},
+    "C09": {"observe": 4, "list": 4, "type_edit": 7, "retype": 8, "copy": 12, "pg_add": 10, "add_data": 16, "geo_image": 2, "add_file": 2, "mk_dup": 3, "rm_all": 1},
     "C12": {"copy": 16, "set_values": 7, "rename": 6, "set_meta": 6, "pg_add": 6, "copy_extent": 6, "pg_new": 3, "geo_image": 3},
 }
 
@@ -262,6 +262,9 @@ class World:
                     self.pending.append({"id": -1, "k": extra, "sub": rng.getrandbits(64), "h": h, "keep": False, **args2,
                                          "t": {"by": op_id, "n": 0, "fb": 0, "want": "holder"}})
                 self.pending = [p for p in self.pending if len(p) > 6]
+            if kind == "type_edit" and op.get("what") == "value_map" and self.prop == "C09" and orng.random() < 0.6:
+                # a second data set on the edited type: the data is copied next to itself (copies share the type)
+                self.pending = [{"id": -1, "k": "copy", "sub": rng.getrandbits(64), "h": h, "keep": False, "t": op["t"], "dh": h, "d": None, "children": True, "clear": False}]
             if kind == "add_data" and op.get("pg") and op["assoc"] != "OBJECT" and orng.random() < 0.6:
                 # burst: more data of the same association into the same property group of the same object
                 self.pending = []
@@ -924,8 +927,8 @@ class World:
                 if t is not None and d is not None:
                     return {"t": t, "dh": dh2, "d": d, "children": True, "clear": False}
             t = None
-        if rng.random() < (0.5 if self.prop == "C09" else 0.35):
-            t = self.target(rng, h, "object", lambda r: bool(r.get("pgs")))
+        if rng.random() < (0.6 if self.prop == "C09" else 0.35):
+            t = self.target(rng, h, "object", lambda r: any(pg["props"] for pg in (r.get("pgs") or {}).values())) or self.target(rng, h, "object", lambda r: bool(r.get("pgs")))
         if self.prop == "C12" and rng.random() < 0.3:
             # a drillhole group with files / comments of its own (with or without holes), preferably into the other workspace
             model = self.h[h].model
@@ -944,7 +947,7 @@ class World:
         if t is None:
             return None
         dh = h
-        if "B" in self.h and rng.random() < (0.6 if self._has_grouped_data(h, t) else 0.35):
+        if "B" in self.h and rng.random() < ((0.85 if self.prop == "C09" else 0.6) if self._has_grouped_data(h, t) else 0.35):
             dh = "B" if h == "A" else "A"
         mode = rng.choice(["same", "other"])
         d = self.target(rng, dh, "container") if (mode == "other" or dh != h) else None
@@ -1515,7 +1518,13 @@ class World:
         t = self.target(rng, h, "data", lambda r: not r.get("concat") and r["cls"] not in ("CommentsData", "FilenameData"))
         if t is None:
             return None
-        return {"t": t, "what": rng.choice(["units", "description", "value_map", "hidden"]), "val": rng.choice(["m", "ppm", "Ωm", "desc é"]), "key": rng.randrange(1, 6)}
+        what = rng.choice(["units", "description", "value_map", "hidden"])
+        if self.prop == "C09" and rng.random() < 0.4:
+            # labels of a boolean / referenced data set (its type then carries a map of its own)
+            t2 = self.target(rng, h, "data", lambda r: not r.get("concat") and r.get("primitive") in ("BOOLEAN", "REFERENCED"))
+            if t2 is not None:
+                t, what = t2, "value_map"
+        return {"t": t, "what": what, "val": rng.choice(["m", "ppm", "Ωm", "desc é"]), "key": rng.randrange(1, 6)}
 
     def do_type_edit(self, op):
         """Edit the data type of a data set (shared by its copies): only that type node may change (C09)."""
